@@ -10,6 +10,7 @@ import (
 	"fmt"
 	"reflect"
 	"sort"
+	"time"
 
 	"verif/vf"
 )
@@ -112,8 +113,41 @@ func dedupSeeds(s [][]byte) [][]byte {
 	return out
 }
 
-func buildRegistry() []*EP {
+const selfTestName = "c07.selftest"
+
+// regSelfTest registers a synthetic entry point (no library code) whose behaviour is known: it is
+// only ever run by selfTest() in pool.go to prove that the oracle notices each kind of failure.
+func regSelfTest() {
+	var sink []byte
+	var rec func(n int) int
+	rec = func(n int) int { var pad [256]byte; pad[n%256] = 1; return rec(n+1) + int(pad[0]) }
+	add(&EP{Name: selfTestName, NoSmall: true, PairMax: 1, Call: func(in []byte) error {
+		switch string(in) {
+		case "panic":
+			panic("c07 self-test")
+		case "alloc":
+			sink = make([]byte, 5<<20)
+			sink[len(sink)-1] = 1
+		case "hang":
+			for {
+				time.Sleep(time.Hour)
+			}
+		case "die":
+			rec(0)
+		case "error":
+			return fmt.Errorf("self-test error")
+		}
+		return nil
+	}, Seeds: [][]byte{[]byte("ok"), []byte("error"), []byte("panic"), []byte("alloc"), []byte("hang"), []byte("die")}})
+}
+
+// thoroughTier selects the richer seed set (more reflect-fill values per structure).
+var thoroughTier bool
+
+func buildRegistry(thorough bool) []*EP {
+	thoroughTier = thorough
 	registry = nil
+	regSelfTest()
 	regSMB()
 	regSPNEGO()
 	regLLMNR()
@@ -209,6 +243,14 @@ func fillValue(v reflect.Value, n int, depth int) {
 			fillValue(v.Elem(), n, depth+1)
 		}
 	}
+}
+
+// fillValues are the reflect-fill values used for seeds in the current tier.
+func fillValues() []int {
+	if thoroughTier {
+		return []int{0, 1, 2, 3, 4, 5, 8}
+	}
+	return []int{0, 2, 3, 5}
 }
 
 // fillPtr fills *p (p is a pointer to struct).
